@@ -615,7 +615,7 @@ fn gen_random_case(rng: &mut Rng, out: &mut Out, caseno: u64) -> Vec<String> {
 					let es: Vec<String> = (0..n).map(|i| format!("{{\"jsonrpc\":\"2.0\",\"id\":{},\"result\":{i}}}", idj(g.next_id + i, str_ids))).collect();
 					lines.push(format!("cl deliver {}", hexs(&format!("[{}]", es.join(",")))));
 				}
-				g.next_id += 1;
+				g.next_id += n;
 				g.next_op += 1;
 			}
 			22 | 23 => {
